@@ -24,7 +24,7 @@ pub static PROP: Prop = Prop {
            and delays finite within +-2^31 s, steering fed back. Scenario families: exactly constant (zero-noise) histories, \
            alternating extremes, huge-then-tiny spacings and bursts, remote steps, delay outliers, zero/negative/huge delays, \
            offsets at the edge of the representable range, periodic one-way sources, many sources of mixed quality, local \
-           clock meddling (filter resets), random mixes; default and perturbed algorithm configurations. Non-trivial = at \
+           clock meddling (filter resets), random mixes, the frequency-stress family of C02; default and perturbed algorithm configurations. Non-trivial = at \
            least one source message reached the controller; shape signature = (scenario, sources, spacing class, config \
            variant, which events occurred: steps, slews, filter resets, outliers ignored, leap changes, sync reached).",
     assumptions: &[
@@ -34,7 +34,7 @@ pub static PROP: Prop = Prop {
         "periodic sources are fed offsets within a few periods (period wrapping loops are linear in offset/period)",
     ],
     profiles: Profiles::Both,
-    cases: |t| t.pick(3_000, 40_000),
+    cases: |t| t.pick(12_000, 150_000),
     budget_s: |t| t.pick(45, 480),
     run,
     min_nontrivial: 100,
@@ -44,7 +44,12 @@ pub static PROP: Prop = Prop {
 };
 
 fn gen_spec(rng: &mut Rng, tier: Tier) -> (Spec, u8, u8) {
-    let scenario = rng.below(12) as u8;
+    let scenario = rng.below(14) as u8;
+    if scenario >= 12 {
+        // the frequency-stress family of C02: limits/kernel frequency/hardware drift of all magnitudes, ramps,
+        // alternating offsets at 1.5 ms spacing, saw-tooth remote steps
+        return (sim::gen_freq_stress_spec(rng, tier.pick(300, 1200)), 12, 0);
+    }
     let n = match scenario {
         9 => rng.usize(3, 6),
         _ => rng.usize(1, 4),
@@ -252,8 +257,8 @@ macro_rules! flag {
     ($c:expr, $s:expr, $seen:expr, $cond:expr, $sig:expr, $what:expr, $extra:expr) => {
         if !($cond) {
             let sig: String = $sig.into();
-            let class = if $seen.const_delay { "zero-measurement-noise" } else { "noisy-measurements" };
-            $c.violation(format!("{}/{}/{}", sig, class, $c.profile), $what, json!({"observed": $extra, "history": $s.describe()}));
+            let class = if $seen.const_delay { "some source has constant/clamped delays (zero measurement-noise estimate possible)" } else { "all sources have varying delays" };
+            $c.violation(format!("{}/{}", sig, $c.profile), $what, json!({"observed": $extra, "input_class": class, "history": $s.describe()}));
         }
     };
 }
@@ -291,15 +296,7 @@ fn check_published(c: &mut Case, s: &Sim, snap: &TimeSnapshot, now: ntp_proto::N
         seen.backward_pub = true;
         c.inc("root_dispersion_before_base_time");
     }
-    let when = if dt >= 0.0 {
-        "after-base-time"
-    } else if dt > -1000.0 {
-        "before-base-time/by-less-than-1000s"
-    } else if dt > -1.0e5 {
-        "before-base-time/by-less-than-1e5s"
-    } else {
-        "before-base-time/by-more-than-1e5s"
-    };
+    let when = if dt >= 0.0 { "at-or-after-base-time" } else { "before-base-time" };
     flag!(
         c,
         s,
@@ -311,14 +308,14 @@ fn check_published(c: &mut Case, s: &Sim, snap: &TimeSnapshot, now: ntp_proto::N
     );
     // the real conversion (panics in the strict build when fed a NaN)
     let snap = *snap;
-    let label = format!("TimeSnapshot::root_dispersion/{when}/{}", if seen.const_delay { "zero-measurement-noise" } else { "noisy-measurements" });
+    let label = format!("TimeSnapshot::root_dispersion/{when}");
     c.no_panic(&label, || json!({"dt": dt, "snapshot": snapshot_json(&snap), "history": s.describe()}), || snap.root_dispersion(now));
 }
 
 fn judge(c: &mut Case, s: &Sim, info: &StepInfo, seen: &mut Seen) {
     if let Some((w, p)) = &info.panic {
         c.violation(
-            format!("panic/{w}/{}/{}/{}", if seen.const_delay { "zero-measurement-noise" } else { "noisy-measurements" }, c.profile, p.site()),
+            format!("panic/{w}/{}/{}", c.profile, p.site()),
             format!("panic in {w} at {}: {}", p.location, p.message),
             json!({"history": s.describe()}),
         );
@@ -396,7 +393,9 @@ fn run(c: &mut Case) {
     let shape = (scenario, variant, spec.sources.len(), spec.sources.first().map(|s| poll_class(&s.poll)));
     let mut seen = Seen::default();
     seen.const_delay = spec.sources.iter().any(|s| match &s.kind {
-        SrcKind::TwoWay => s.delay_jitter == 0.0 && s.outlier_pm == 0,
+        // constant delays, or delays at/below the filter's MIN_DELAY clamp (2^-18 s): the delay variance, hence the
+        // measurement-noise estimate, can be exactly zero
+        SrcKind::TwoWay => (s.delay_jitter == 0.0 && s.outlier_pm == 0) || s.delay < 3.9e-6,
         SrcKind::OneWay { noise, .. } => *noise < 1e-20,
     });
     let mut s = Sim::new(spec);
@@ -416,6 +415,9 @@ fn run(c: &mut Case) {
         }
         if let sim::Ev::Meddle(_) = info.ev {
             seen.resets = true;
+        }
+        if c.replaying && std::env::var("VERIF_C06_TRACE").is_ok() {
+            eprintln!("t={:.3} ev={:?} msg={:?} upd={:?}", info.t, info.ev, info.msg.as_ref().map(|m| (m.offset, m.var00, m.var01, m.var11, m.delay, m.wander)), info.update.as_ref().map(|u| (u.used.as_ref().map(|v| v.len()), u.message, u.snapshot.map(|t| (t.root_variance_base, t.root_variance_linear, t.root_variance_quadratic)))));
         }
         judge(c, &s, &info, &mut seen);
     }
